@@ -355,9 +355,11 @@ func (c *client) reconnect() error {
 		return err
 	}
 
-	// heartbeat bookkeeping belongs to the old conn: nothing is outstanding on the new one
+	// heartbeat bookkeeping belongs to the old conn: nothing is outstanding on the new one,
+	// and its pong clock starts now (as it does on the first conn)
 	c.stateMu.Lock()
 	c.lastKeepaliveId = 0
+	c.lastPongAt = time.Now()
 	c.stateMu.Unlock()
 
 	// server needn't auth
